@@ -27,7 +27,7 @@ def sh(cmd, cwd=None, check=True):
 
 def retarget(cmd, wt):
     """Point every /repo path of a command (sources, -I/repo, -I/repo/include ...) at the worktree."""
-    return re.sub(r'(?<![\w./-])/repo(?=/|\s|"|$)', wt, cmd)
+    return re.sub(r'(^|[\s"]|-I|-isystem\s*)/repo(?=/|\s|"|$)', lambda m: m.group(1) + wt, cmd)
 
 
 def main():
